@@ -81,6 +81,11 @@ CHECKS["C16"] = dict(
    text="The C14 graph family, GFA2 twins, GFA2 graphs mixing dovetail/containment/internal E lines over all orientation pairs and interval kinds, and every state of a depth-3/4 history search over four universes: connected_components() is a partition equal to the union-find partition over dovetails only, segment_connected_component(s) is s's class (by name and by line), n_dovetails/n_containments/n_internals/n_dead_ends equal the counts obtained from the text by the reference classification.",
    note="Reference classification anchored on the 800 labelled edges; states with placeholder segments are expanded but not judged; remove_small_components is not judged.",
    ref="3 C16", engine="I+H")
+CHECKS["C17"] = dict(
+   technique="exhaustive enumeration of O/U item lists, nested definitions, two- and three-line group definitions in all arrival orders and placements, on the real code vs an independent text-level model (gfamc/ref/groups.py)",
+   text="Graph a,b,c with e1 a+ b+, e2 b+ c- in six variants (parallel edge, cycle edge, both, complement-form edges). Every O item list of length <= 3 over {a,b,c,e1,e2 with both orientations} on all variants, definitions first and group first; every list containing a nested o1 x definitions of o1 (thorough: all 110 lists of length <= 2); every U list of length <= 3 over {a,b,e1,g1,o1,u0} x nested definitions; every split of a list into two (and three) lines sharing the identifier x 8 tag modes (incl. contradictory and contradictory-with-zero) x both arrival orders x every placement among the other lines. Clauses: invalid-walk, accepts-invalid-items, rejects-valid-path, wrong-walk, segments-edges-differ, induced-set, merge-items/tags/records, merge-accepts-contradiction, merge-refused-state-changed, validate on unresolved items.",
+   note="An E line is read as an adjacency of two oriented segments (either order); where the specification is silent (segment that is no end of its neighbouring edge, gap in a set, nested path without a defined walk) only the validity of a returned walk is judged; Gfa.validate() is not asked to detect non-contiguous paths (the suite's valid_path.gfa2 forbids it).",
+   ref="3 C17", engine="I+S")
 NOT_BUILT = {}
 
 def main():
